@@ -924,7 +924,15 @@ UNAVAILABLE = []
 DIV_SITES = {}
 
 
-def regenerate(targets=None):
+def _elaborates(path):
+    """does the generated file elaborate on its own?  (a translation that is ill-typed in Lean is a limit of the
+    translator, not a statement about the code)"""
+    import subprocess
+    p = subprocess.run(["lake", "env", "lean", path], cwd=LEAN, stdout=subprocess.PIPE, stderr=subprocess.STDOUT, text=True)
+    return p.returncode == 0, p.stdout[-400:]
+
+
+def regenerate(targets=None, check=True):
     """returns True when any generated file changed"""
     from . import py2lean_targets
     targets = targets or py2lean_targets.TARGETS
@@ -934,19 +942,29 @@ def regenerate(targets=None):
     repo = os.environ.get("PYP0F_REPO", "/repo")
     if repo not in sys.path:
         sys.path.insert(0, repo)
+    force = os.environ.get("PY2LEAN_FORCE_ALIAS", "")
     for t in targets:
+        def alias_text(why):
+            return header(t, f"NOT TRANSLATABLE ({why}): alias of the model function; the correspondence is the remaining tie") + t["alias"] + "\nend P0f.Gen\n"
         try:
+            if force == "all" or t["lean"] in force.split(","):
+                raise NotTranslatable("forced (self-test of the fallback)")
             body, divs = translate_target(t)
             DIV_SITES[t["lean"]] = divs
             text = header(t, "division sites (a zero divisor is ZeroDivisionError in Python, 0 here): " + ("; ".join(divs) or "none")) + body + "\nend P0f.Gen\n"
         except NotTranslatable as e:
             UNAVAILABLE.append(f"{t['module']}.{t['func']}: {e}")
-            text = header(t, f"NOT TRANSLATABLE ({e}): alias of the model function; the correspondence is the remaining tie") + t["alias"] + "\nend P0f.Gen\n"
+            text = alias_text(str(e).replace("-/", "- /"))
         path = os.path.join(OUTDIR, t["file"] + ".lean")
         old = open(path).read() if os.path.exists(path) else None
         if old != text:
             open(path, "w").write(text)
             changed = True
+            if check and "NOT TRANSLATABLE" not in text:
+                ok, out = _elaborates(path)
+                if not ok:
+                    UNAVAILABLE.append(f"{t['module']}.{t['func']}: the printed definition does not elaborate in Lean ({out.strip().splitlines()[0][:160] if out.strip() else ''})")
+                    open(path, "w").write(alias_text("the printed definition does not elaborate in Lean"))
     return changed
 
 
